@@ -72,7 +72,7 @@ claim('C04', 'other',
       'is_valid/validate of components and of schemas over the ghost sequence of iter_errors (verdict = that of the first error, all arguments '
       'forwarded), and the CLI exit status (loop invariant; exit status 0 iff all files valid, for every error count) are proved. Agreement of '
       'all entry points, modes and 10 source kinds, package-level functions included, is a bounded run-time contract on generated faulty documents, '
-      'lxml trees and documents with comments, inheritable attributes (XSD 1.1 context copies), a strict wildcard; verdict agreement on nine small schemas run on one schema object in sequence (mixed content with a fixed value, '
+      'lxml trees and documents with comments, inheritable attributes (XSD 1.1 context copies), a strict wildcard; verdict agreement on eight small schemas run on one schema object in sequence (mixed content with a fixed value, '
       'list enumerations and fixed lists, an IDREF default, a blocked xsi:type); plus the CLI as a subprocess for 0, 1, 255, 256, 512 errors.',
       'Trusted: POSIX 8-bit exit status; the non-interference of the validation mode before the first error is a 2-safety property outside this family and only bounded-checked.',
       'DESIGN.md 5/C04')
